@@ -37,6 +37,7 @@ def make_es(it, prog, evaluator, criterion, cls="EarlyStopping"):
     else:
         ev = make_cb(it, prog, "ObservableEvaluator")
     ev.inst.attrs["past_values"] = it.new_list(None)
+    ev.inst.attrs["period"] = VNum("int", T.sym("eperiod"), pos=True)  # the evaluator's own period: another number than the stopper's
     name = VConst("m1" if evaluator == "metric" else "SigmaZ")
     kw = {"period": period(), "tolerance": VNum("float", T.sym("tol")), "patience": api.intsym("p"), "evaluator_callback": ev, "quantity_name": name}
     if cls == "EarlyStopping":
